@@ -22,7 +22,7 @@ func init() {
 				"NOT decided: truth of the reported status; exactly-once under concurrent exits beyond the single plain send; process-group semantics.",
 			RuleText:    "one obligation per guard/order/count rule of the three operations",
 			Assumptions: trusted,
-			MinObs:      15,
+			MinObs:      13,
 		},
 		Run: runC19,
 	})
